@@ -4433,6 +4433,132 @@ let run_helper_chk padding =
       true, true, false)), (String ((Ascii (false, false, true, false, true,
       true, true, false)), EmptyString))))))))) (check_padding padding))) :: []
 
+(** val run_helper_phdr : bytes -> kv list **)
+
+let run_helper_phdr d =
+  ((String ((Ascii (true, true, true, false, true, true, true, false)),
+    EmptyString)), (OL
+    ((obs_pres (fun x -> ON x) (parse_version d)) :: ((obs_pres (fun b -> OS
+                                                        (if b
+                                                         then String ((Ascii
+                                                                (false,
+                                                                false, true,
+                                                                false, true,
+                                                                true, true,
+                                                                false)),
+                                                                (String
+                                                                ((Ascii
+                                                                (false, true,
+                                                                false, false,
+                                                                true, true,
+                                                                true,
+                                                                false)),
+                                                                (String
+                                                                ((Ascii
+                                                                (true, false,
+                                                                true, false,
+                                                                true, true,
+                                                                true,
+                                                                false)),
+                                                                (String
+                                                                ((Ascii
+                                                                (true, false,
+                                                                true, false,
+                                                                false, true,
+                                                                true,
+                                                                false)),
+                                                                EmptyString)))))))
+                                                         else String ((Ascii
+                                                                (false, true,
+                                                                true, false,
+                                                                false, true,
+                                                                true,
+                                                                false)),
+                                                                (String
+                                                                ((Ascii
+                                                                (true, false,
+                                                                false, false,
+                                                                false, true,
+                                                                true,
+                                                                false)),
+                                                                (String
+                                                                ((Ascii
+                                                                (false,
+                                                                false, true,
+                                                                true, false,
+                                                                true, true,
+                                                                false)),
+                                                                (String
+                                                                ((Ascii
+                                                                (true, true,
+                                                                false, false,
+                                                                true, true,
+                                                                true,
+                                                                false)),
+                                                                (String
+                                                                ((Ascii
+                                                                (true, false,
+                                                                true, false,
+                                                                false, true,
+                                                                true,
+                                                                false)),
+                                                                EmptyString)))))))))))
+                                                        (parse_padding_bit d)) :: (
+    (obs_pres obs_optN (parse_padding d)) :: ((obs_pres (fun x -> ON x)
+                                                (parse_count d)) :: (
+    (obs_pres (fun x -> ON x) (parse_packet_type d)) :: ((obs_pres (fun x ->
+                                                           OI x)
+                                                           (parse_length d)) :: (
+    (obs_pres (fun x -> ON x) (parse_ssrc d)) :: []))))))))) :: []
+
+(** val run_build_unchecked : member -> nat -> n -> kv list **)
+
+let run_build_unchecked m extra fill =
+  match m_calc m with
+  | Ok n0 ->
+    ((String ((Ascii (true, false, true, false, true, true, true, false)),
+      (String ((Ascii (true, true, true, false, true, true, true, false)),
+      EmptyString)))),
+      (obs_unchecked (m_write_unchecked m (repeat fill (add n0 extra))))) :: []
+  | Err e ->
+    (match e with
+     | FciWrongFeedbackPacketType ->
+       (match m with
+        | MFb _ ->
+          ((String ((Ascii (true, false, true, false, true, true, true,
+            false)), (String ((Ascii (true, true, true, false, true, true,
+            true, false)), EmptyString)))),
+            (obs_unchecked
+              (m_write_unchecked m
+                (repeat fill
+                  (add (S (S (S (S (S (S (S (S (S (S (S (S (S (S (S (S
+                    O)))))))))))))))) extra))))) :: []
+        | _ -> [])
+     | _ -> [])
+  | _ -> []
+
+(** val fci_write_into : fci_cfg -> bytes -> nat wres * bytes **)
+
+let fci_write_into f buf =
+  write_into_gen (fci_calc f) (fci_write f) buf
+
+(** val run_build_fci : fci_cfg -> (nat * n) list -> kv list **)
+
+let run_build_fci f bufs =
+  ((String ((Ascii (true, true, false, false, true, true, true, false)),
+    (String ((Ascii (true, false, false, true, false, true, true, false)),
+    (String ((Ascii (false, true, false, true, true, true, true, false)),
+    (String ((Ascii (true, false, true, false, false, true, true, false)),
+    EmptyString)))))))),
+    (obs_wres (fun x -> OI x) (fci_calc f))) :: (((String ((Ascii (true,
+    true, true, false, true, true, true, false)), (String ((Ascii (false,
+    true, false, false, true, true, true, false)), (String ((Ascii (true,
+    false, false, true, false, true, true, false)), (String ((Ascii (false,
+    false, true, false, true, true, true, false)), (String ((Ascii (true,
+    false, true, false, false, true, true, false)), (String ((Ascii (true,
+    true, false, false, true, true, true, false)), EmptyString)))))))))))),
+    (OL (map (fun b -> obs_write (fci_write_into f (mk_buf b))) bufs))) :: [])
+
 type op =
 | OPad of n
 | ONtp of n
